@@ -114,6 +114,10 @@ func ruleC07(c *Check, p *Prog) {
 	c.Floor("R-WF-ACC", 9)
 	c.Floor("R-WF-DECIDE", 12)
 	c.Floor("R-WF-RET", 3)
+	// the two criteria themselves (shared with C12): threshold closed form and the uniformity statistic
+	ex := c.Explanation
+	ruleC12(c, p)
+	c.Explanation = ex + " The threshold closed form and the uniformity statistic are decided by C12's obligations, re-evaluated here."
 	// the round functions the descriptors refer to: results[i] = TestMethodArr[i].Runner(data) for all 15 / the first 12 items
 	checkRound(c, p, "Round15", 15, false)
 	checkRound(c, p, "Round12", 12, true)
